@@ -125,6 +125,33 @@ func (x *fx) staticCall(ci ssa.CallInstruction, fn *ssa.Function, args []Term, f
 			}
 		}
 	}
+	if root := x.rootContract(); root != nil && x.top {
+		var cps []*Clause
+		for label, cs := range root.CallPre {
+			// CALLEE is a function name, optionally qualified by its package name (json.Unmarshal) or path
+			if label == fn.Name() || (fn.Pkg != nil && (label == fn.Pkg.Pkg.Name()+"."+fn.Name() || label == fn.Pkg.Pkg.Path()+"."+fn.Name())) {
+				cps = append(cps, cs...)
+			}
+		}
+		for _, c := range cps {
+			if c.Profile != "" && c.Profile != e.profile {
+				continue
+			}
+			cenv := x.envAt(x.cur, ci.Block(), nil, true)
+			cenv.pkg = e.pkgOf(root)
+			for i, a := range ci.Common().Args {
+				if i < len(args) {
+					cenv.vars[fmt.Sprintf("arg%d", i)] = TV{args[i], a.Type()}
+				}
+			}
+			tv, err := cenv.eval(c.Expr)
+			if err != nil {
+				e.bindingError(FuncKey(x.fn), c, err)
+				continue
+			}
+			e.oblig("callpre", fmt.Sprintf("callpre@%s:%d", fn.Name(), c.Line), c.Props, x.curReach, tv.T, x.pos(ci.Pos()), c.Text)
+		}
+	}
 	sig := fn.Signature
 	key := FuncKey(fn)
 	inModule := fn.Pkg != nil && strings.HasPrefix(fn.Pkg.Pkg.Path(), ModulePath)
